@@ -553,11 +553,17 @@ def check(ctx):
                 others.append(f2.qual)
     ctx.ob("R4", "datagram_received::who-may-call", not others, f"datagram_received also called from {others}")
     sp = repo.method("GeckoAsyncSpa", "sendparms")
-    ret = [n for n in ast.walk(sp.node) if isinstance(n, ast.Return)]
-    ok = len(ret) == 1 and isinstance(ret[0].value, ast.Tuple) and len(ret[0].value.elts) == 4
-    if ok:
-        e = [ast.unparse(x) for x in ret[0].value.elts]
-        ok = e[2].endswith("descriptor.identifier") and e[3].endswith("client_id") and e[0].endswith("destination[0]") and e[1].endswith("destination[1]")
+    # by behaviour: the connection object built by its constructor (connection model) reports
+    # (spa ip, spa port, spa identifier, client identifier) - a tuple, or a NamedTuple that is one
+    from ..facts import ConnectionModel
+    from .c04 import as_tuple as _as_tuple
+    from ..absint import PyRaise as _PR4, Undecided as _UD4
+    try:
+        _cm4 = ConnectionModel(repo, connect=False)
+        _sp = _as_tuple(_cm4.it.getattr(_cm4.spa, "sendparms"))
+    except (_PR4, _UD4) as e:
+        raise AnalysisError(f"GeckoAsyncSpa.sendparms on the connection model: {e}")
+    ok = isinstance(_sp, tuple) and tuple(_sp) == ("10.0.0.5", 10022, b"SPA-ID", b"CLIENT-ID")
     ctx.ob("R4", "GeckoAsyncSpa.sendparms::orientation", ok,
            "sendparms is not (ip, port, spa identifier, client identifier) - the orientation GeckoPacketProtocolHandler.handle produces for packets from the spa", sp.loc)
 
